@@ -86,3 +86,4 @@ R('enh_decode_len32', 'h_enh_decode', None, unwind=34, props=('C14', 'C20'), cos
 R('enh_encode', 'h_enh_encode', None, unwind=3, props=('C14', 'C20'), cost=5)
 R('transport', 'h_transport', None, unwind=34, props=('C14', 'C20'), cost=60)
 R('plain_recv', 'h_plain_recv', None, unwind=6, props=('C14', 'C03', 'C01', 'C20'), cost=20)
+R('enh_recv', 'h_enh_recv', None, unwind=6, props=('C14', 'C03', 'C20'), cost=30, bounded='transport buffers of up to 4 bytes, one pass of the receive loop (timeout 0)')
